@@ -220,6 +220,76 @@ def c14():
     )
 
 
+# ------------------------------------------------------------------------------------------- C05 / C06 kernels
+def seqkern_queries(nn):
+    """seq/kern.cpp shapes: (N handles, K sequences, GONE mask, OP, PICK)"""
+    shapes = []
+    for n, tier in ((1, 'quick'), (2, 'quick'), (3, 'quick'), (4, 'thorough')):
+        for k in (1, 2):
+            for gone in range(1 << n):
+                if k == 2 and gone not in (0, 1, (1 << n) - 2):
+                    continue
+                shapes.append((n, k, gone, 0, 0, tier))
+                if n >= 2 and (tier == 'thorough' or gone in (0, 1, 2, 5)):
+                    for pick in range(n):
+                        for op in (1, 2, 4):
+                            shapes.append((n, k, gone, op, pick, tier))
+                if k == 1:
+                    shapes.append((n, k, gone, 3, 0, tier))
+    qs = []
+    for i, (n, k, gone, op, pick, tier) in enumerate(shapes):
+        qs.append(Q('seqkern_N%d_K%d_gone%d_op%d_pick%d' % (n, k, gone, op, pick), 'seq/kern.cpp', 14, tier=tier,
+                    defs={'VF_N': n, 'VF_K': k, 'VF_GONE': gone, 'VF_OP': op, 'VF_PICK': pick, 'VF_CLAIM': nn}, tv=(i % 7 == 0), timeout=300))
+    return qs
+
+
+SEQKERN_BOUND = ('seq/kern: N<=3 (quick) / 4 (thorough) real handles in 1..2 real sequences, every subset already retired, all 64-bit (L,H,count) per handle; '
+                 'one of {query, retire_predecessors, retire, sequence destruction, handle destruction} at every position')
+
+
+def seqstep_queries(nn, quick_only=None):
+    qs = []
+    quick = [((1, 1, 1), 0, 0), ((1, 1, 1), 0, 1), ((1, 1, 1), 0, 2), ((1, 1, 1), 1, 1), ((1, 1, 1), 1, 0), ((1, 1, 1), 2, 2),
+             ((1, 3, 2), 0, 1), ((1, 3, 2), 0, 2), ((3, 3, 3), 0, 2), ((1, 0, 1), 0, 2), ((1, 0, 1), 0, 1), ((3, 1, 2), 0, 2)]
+    thorough = []
+    for mb in ((1, 1, 1), (1, 3, 2), (3, 3, 3), (1, 0, 1), (3, 1, 2), (2, 3, 1), (1, 2, 3), (3, 3, 1)):
+        for gone in (0, 1, 2, 3, 4, 5):
+            for call in (0, 1, 2):
+                if (mb, gone, call) not in quick: thorough.append((mb, gone, call))
+    if quick_only is not None:
+        quick, thorough = quick[:quick_only], quick[quick_only:]
+    for tier, shapes in (('quick', quick), ('thorough', thorough)):
+        for mb, gone, call in shapes:
+            qs.append(Q('seqstep_mb%d%d%d_gone%d_call%d' % (mb + (gone, call)), 'api/seqstep.cpp', 6, tier=tier,
+                        defs={'VF_MB0': mb[0], 'VF_MB1': mb[1], 'VF_MB2': mb[2], 'VF_GONE': gone, 'VF_CALL': call, 'VF_CLAIM': nn}, timeout=1500, portfolio=True))
+    return qs
+
+
+SEQSTEP_BOUND = ('api/seqstep: three real expectations f(0),f(1),f(2) each in a subset of two sequences, every retirement pattern in the tier, all 64-bit counters under the '
+                 'forward-only invariant, one real call to each of them')
+
+
+@prop('C05')
+def c05():
+    return dict(
+        queries=seqkern_queries(5) + seqstep_queries(5),
+        level='model_checking',
+        level_text='Bounded/inductive: cost/order/eligibility of real sequence handles equal the reference for every retirement pattern and all counters; one real call from an arbitrary invariant-satisfying state of three sequenced expectations: accepted iff every pending predecessor in every named sequence is satisfied, all predecessors are retired on a match, an ineligible match is exactly one fatal report and changes nothing.',
+        bound=SEQKERN_BOUND + '; ' + SEQSTEP_BOUND,
+        outside='sequenced REQUIRE_DESTRUCTION monitors are checked by seq/death (one shape family); call histories longer than one step follow from the invariant (argument)',
+    )
+
+
+@prop('C06')
+def c06():
+    return dict(
+        queries=seqkern_queries(6) + seqstep_queries(6, quick_only=4),
+        level='model_checking',
+        level_text='Bounded: is_completed() iff every listed handle is satisfied, before and after a real call; sequence destruction reports once, non-fatally, exactly the listed expectations in registration order and detaches them; empty teardown is silent; released / saturated handles leave.',
+        bound=SEQKERN_BOUND + '; ' + SEQSTEP_BOUND,
+    )
+
+
 # ------------------------------------------------------------------------------------------- C09
 @prop('C09')
 def c09():
